@@ -39,6 +39,22 @@ M = {
     "                            let m = execute_outi_outd(cpu, bus, BlockDir::Dec);\n                            if cpu.regs.get_reg_8(RegName8::B) != 0 {\n                                bus.wait_loop(cpu.regs.get_hl(), 5);"),
  "c03_int_6": ("rustzx-z80/src/cpu.rs", "                    // 7 (acknowledge cycle) + 3 + 3 = 13 clocks\n                    bus.wait_internal(7);", "                    // 7 (acknowledge cycle) + 3 + 3 = 13 clocks\n                    bus.wait_internal(6);"),
  "c03_rld_3": ("rustzx-z80/src/opcode/group_extended.rs", "                            mem = ((mem << 4) & 0xF0) | acc_lo;\n                            cpu.regs.set_acc(acc);\n                            bus.wait_loop(cpu.regs.get_hl(), 4);", "                            mem = ((mem << 4) & 0xF0) | acc_lo;\n                            cpu.regs.set_acc(acc);\n                            bus.wait_loop(cpu.regs.get_hl(), 3);"),
+ # ---- C04
+ "c04_pattern_rotated": ("rustzx-core/src/zx/machine/mod.rs", ".clocks_row(24, 128, 24, 48)\n            .lines(48, 192, 48, 24)\n            .contention([6, 5, 4, 3, 2, 1, 0, 0], 1)", ".clocks_row(24, 128, 24, 48)\n            .lines(48, 192, 48, 24)\n            .contention([5, 4, 3, 2, 1, 0, 0, 6], 1)"),
+ "c04_origin_plus1": ("rustzx-core/src/zx/machine/mod.rs", "let clocks_trough_line = (clocks - (specs.clocks_first_pixel - 1)) % specs.clocks_line;", "let clocks_trough_line = (clocks - specs.clocks_first_pixel) % specs.clocks_line;"),
+ "c04_row_gt": ("rustzx-core/src/zx/machine/mod.rs", "if clocks_trough_line >= specs.clocks_screen_row {", "if clocks_trough_line > specs.clocks_screen_row {"),
+ "c04_banks_4567": ("rustzx-core/src/zx/machine/mod.rs", "let contended_pages = [1, 3, 5, 7];", "let contended_pages = [4, 5, 6, 7];"),
+ "c04_port_inverted": ("rustzx-core/src/zx/machine/mod.rs", "(port & 0x0001) == 0\n", "(port & 0x0001) != 0\n"),
+ "c04_io_last_drops_c1": ("rustzx-core/src/zx/controller.rs", "            self.do_contention_and_wait(1);\n            self.do_contention_and_wait(1);\n            self.do_contention();", "            self.do_contention_and_wait(2);\n            self.do_contention();"),
+ "c04_no_mreq_uncontended": ("rustzx-core/src/zx/controller.rs", "        // only for 48 K!\n        self.wait_mreq(addr, clk);", "        // only for 48 K!\n        let _ = addr;\n        self.wait_internal(clk);"),
+ "c04_last_line_off": ("rustzx-core/src/zx/machine/mod.rs", "|| (clocks >= (specs.clocks_first_pixel - 1) + specs.lines_screen * specs.clocks_line)", "|| (clocks >= (specs.clocks_first_pixel - 1) + (specs.lines_screen - 1) * specs.clocks_line)"),
+ # ---- C05
+ "c05_new_frame_zero": ("rustzx-core/src/zx/controller.rs", "        self.frame_clocks -= self.machine.specs().clocks_frame;", "        self.frame_clocks = 0;"),
+ "c05_vsync_23": ("rustzx-core/src/zx/machine/mod.rs", ".lines(48, 192, 48, 24)", ".lines(48, 192, 48, 23)"),
+ "c05_int_len_36": ("rustzx-core/src/zx/machine/mod.rs", ".contention([6, 5, 4, 3, 2, 1, 0, 0], 1)\n            .interrupt_length(32)\n            .rom_pages(1)", ".contention([6, 5, 4, 3, 2, 1, 0, 0], 1)\n            .interrupt_length(36)\n            .rom_pages(1)"),
+ "c05_int_le": ("rustzx-core/src/zx/controller.rs", "            < self.machine.specs().interrupt_length", "            <= self.machine.specs().interrupt_length"),
+ "c05_frame_gt": ("rustzx-core/src/zx/controller.rs", "        if self.frame_clocks >= self.machine.specs().clocks_frame {", "        if self.frame_clocks > self.machine.specs().clocks_frame {"),
+ "c05_passed_frames_double": ("rustzx-core/src/zx/controller.rs", "            self.new_frame();\n            self.passed_frames += 1;", "            self.new_frame();\n            self.passed_frames += 1 + (self.frame_clocks == 3) as usize;"),
 }
 
 def main():
